@@ -211,7 +211,8 @@ Lemma parse_suffix a p iface :
                  let sp := span isdigit (tl rest) in
                  match fst sp with
                  | [] => Err ARES_EBADSTR
-                 | ds => do ps <- fetch_string 6 ds; do p0 <- atoi ps; Ok (u16 p0, snd sp)
+                 | ds => do ps <- fetch_string 6 ds; do p0 <- atoi ps;
+                         if (65535 <? p0)%Z then Err ARES_EBADSTR else Ok (p0, snd sp)
                  end
                else Ok (0%Z, rest));
      let port := fst pr in
@@ -237,18 +238,18 @@ Proof.
   destruct iface as [|i0 ir].
   - rewrite app_nil_r. rewrite (span_all_end isdigit _ Dd). cbn [fst snd].
     destruct (dec_of_Z p) as [|d0 dr] eqn:Ed; [congruence|].
-    rewrite <- Ed in *. rewrite (fetch_port p Hp). cbn [bind]. rewrite Da. cbn [bind fst snd].
-    unfold u16. rewrite Z.mod_small by (unfold port_ok in Hp; lia). reflexivity.
+    rewrite <- Ed in *. rewrite (fetch_port p Hp). cbn [bind]. rewrite Da. cbn [bind].
+    destruct (Z.ltb_spec 65535 p); [unfold port_ok in Hp; lia|]. reflexivity.
   - rewrite (span_all isdigit (dec_of_Z p) ch_pct (i0 :: ir) Dd eq_refl). cbn [fst snd].
     destruct (dec_of_Z p) as [|d0 dr] eqn:Ed; [congruence|].
-    rewrite <- Ed in *. rewrite (fetch_port p Hp). cbn [bind]. rewrite Da. cbn [bind fst snd].
+    rewrite <- Ed in *. rewrite (fetch_port p Hp). cbn [bind]. rewrite Da. cbn [bind].
+    destruct (Z.ltb_spec 65535 p); [unfold port_ok in Hp; lia|]. cbn [bind fst snd].
     change (ch_pct =? ch_pct) with true. cbn [tl].
     destruct Hi as [Hic Hil]. rewrite (span_all_end _ _ Hic). cbn [fst snd].
     assert (fetch_string 16 (i0 :: ir) = Ok (i0 :: ir)) as Ef.
     { unfold fetch_string. destruct (Nat.ltb_spec (16 - 1) (length (i0 :: ir))); [simpl in *; lia|].
       rewrite (iface_printable (i0 :: ir) (conj Hic Hil)). reflexivity. }
-    rewrite Ef. cbn [bind fst snd dropwhile span].
-    unfold u16. rewrite Z.mod_small by (unfold port_ok in Hp; lia). reflexivity.
+    rewrite Ef. cbn [bind fst snd dropwhile span]. reflexivity.
 Qed.
 
 (* ------------------------------------------------------------------ one entry: render, then parse *)
